@@ -410,7 +410,10 @@ def translate():
         out = []
         for st in stmts:
             callee = None
-            if (depth > 0 and isinstance(st, ast.Expr) and isinstance(st.value, ast.Call)
+            # `self.m(...)` as a statement, or `x = self.m(...)` (the helper hands something back, e.g. the socket it checked)
+            if (depth > 0 and (isinstance(st, ast.Expr) or (isinstance(st, ast.Assign) and len(st.targets) == 1
+                                                            and isinstance(st.targets[0], ast.Name)))
+                    and isinstance(st.value, ast.Call)
                     and isinstance(st.value.func, ast.Attribute) and isinstance(st.value.func.value, ast.Name)
                     and st.value.func.value.id == 'self'):
                 callee = find_func(cls, st.value.func.attr)
@@ -438,6 +441,15 @@ def translate():
                     test_src = ast.unparse(st.test)
                     if isinstance(st.test, ast.Name) and st.test.id in local_defs:
                         test_src = local_defs[st.test.id]
+                    elif not isinstance(st.test, ast.Name):
+                        # a local that merely holds an attribute of self (`sock = self._sock` ... `if sock is None:`) stands for it
+                        class _Subst(ast.NodeTransformer):
+                            def visit_Name(self, node):
+                                d = local_defs.get(node.id)
+                                if d is not None and d.startswith('self.') and '(' not in d:
+                                    return ast.parse(d, mode='eval').body
+                                return node
+                        test_src = ast.unparse(_Subst().visit(ast.parse(test_src, mode='eval').body))
                     if raised:      # a guard refuses the write; other conditionals (e.g. `if closing:` bookkeeping) are not guards
                         structure['write_checks'].append((test_src, raised[0]))
             structure['sendall_under_lock'] = any(c.endswith('.sendall') for c in calls_in(locked_body))
@@ -805,6 +817,15 @@ end Lomond.Gen
         changed.append('Tables.lean')
     if write_if_changed(os.path.join(GEN, 'Facts.lean'), facts_lean):
         changed.append('Facts.lean')
+    # ---- structure of mask.py (table comprehension, unpacking, lane statements): harness/maskfacts.py -> Generated/Mask.lean
+    try:
+        import maskfacts
+        mask_lean, mask_problems = maskfacts.extract(REPO)
+        problems += mask_problems
+        if write_if_changed(os.path.join(GEN, 'Mask.lean'), mask_lean):
+            changed.append('Mask.lean')
+    except Exception as e:  # noqa
+        problems.append('mask.py facts could not be extracted: %s' % e)
     # ---- code (not only tables): harness/py2lean.py -> Generated/Code.lean ------------------------
     # a site outside the translated subset is a problem and leaves a `Py.Untranslated` definition
     # A site that can no longer be retranslated (the source was restructured) falls back to the definition last translated from
